@@ -846,7 +846,8 @@ func (x *executor) step(line string) string {
 			return fmtURL(fs.prefix.URL(t[2] == "1", decB(t[3]), decMap(t[4])))
 		})
 	case t[0] == "hosts" && len(t) == 3:
-		return protect(func() string { x.hosts[atoi(t[1])] = mux.NewHosts(false, decL(t[2])...); return "ok" })
+		// odd ids get a locked Hosts: the lock must be invisible to a single goroutine
+		return protect(func() string { x.hosts[atoi(t[1])] = mux.NewHosts(atoi(t[1])%2 == 1, decL(t[2])...); return "ok" })
 	case t[0] == "hosts-add" && len(t) == 3:
 		h := x.hosts[atoi(t[1])]
 		if h == nil {
